@@ -3,7 +3,7 @@ from props import boardprop
 
 FIELDS = ("make.digest","move-accepted","spec.apply","spec.flags","spec.wf","state.turn","state.fullmove","state.ep","state.history","state.position_history")
 PREFIXES = ("state.bb",)
-HAS_PROOFS = False
+HAS_PROOFS = True
 
 
 def run(ctx):
